@@ -102,7 +102,8 @@ pub fn instant(form: u8, secs: u32) -> rpm::Timestamp {
         1 => rpm::Timestamp::try_from(off(19_800)),
         2 => rpm::Timestamp::try_from(off(-28_800)),
         3 => rpm::Timestamp::try_from(off(50_400)),
-        4 => rpm::Timestamp::try_from(std::time::UNIX_EPOCH + std::time::Duration::from_secs(secs as u64)),
+        // a SystemTime late inside that second (the whole seconds count, fractions do not round up)
+        4 => rpm::Timestamp::try_from(std::time::UNIX_EPOCH + std::time::Duration::new(secs as u64, [0u32, 750_000_000, 999_999_999][(secs % 3) as usize])),
         _ => Ok(rpm::Timestamp::from(secs)),
     }
     .unwrap_or(rpm::Timestamp::from(secs))
@@ -477,7 +478,13 @@ pub fn build_signed<S: rpm::signature::Signing<Signature = Vec<u8>>>(cfg: &Build
 // ---------------------------------------------------------------------------------------------
 // generator
 
-const STRINGS: [&str; 14] = [
+const STRINGS: [&str; 20] = [
+    "ends in a line feed\n",
+    "ends in two\n\n",
+    "#!/bin/sh\r\necho dos line ends\r\n",
+    "#! \necho bare shebang",
+    "#!\t\n",
+    "\n",
     "",
     "x",
     "plain ascii text",
@@ -556,6 +563,8 @@ pub fn rand_dest(r: &mut Rng, used: &mut std::collections::BTreeSet<String>, idx
             2 => format!("{}-{idx}", "n".repeat(1 + r.usize(40))),
             3 => format!("ü{idx}.conf"),
             4 if r.chance(1, 2) => format!(".hidden{idx}"),
+            // a file that is called like the end marker of the archive format
+            5 if r.chance(1, 3) => "TRAILER!!!".to_string(),
             _ => format!("{}{idx}", COMPONENTS[r.usize(COMPONENTS.len())]),
         });
         let path = format!("/{}", comps.join("/"));
